@@ -354,6 +354,9 @@ def _static_frames(tier="quick", seed=0):
     obls, notes, unresolved = [], [], []
     functions = {}
     counts = {PURE: 0, EMPTY: 0, MUT: 0, UNK: 0}
+    # an accessor is analysed for every concrete class that inherits it (receiver types differ), and reported once, under
+    # the class that defines it: the clause fails if it fails for any of them
+    agg = {}
     for (modname, cname), cls in sorted(_proxy_classes().items()):
         for name in _accessors(cls) + [n for n in ("__getitem__",) if inspect.getattr_static(cls, n, None) is not None and isinstance(inspect.getattr_static(cls, n, None), __import__("types").FunctionType)]:
             owner = next((k for k in cls.__mro__ if name in k.__dict__), None)
@@ -361,28 +364,36 @@ def _static_frames(tier="quick", seed=0):
                 continue
             eff, why = ana.member_effect(cls, name, "call" if name.startswith("__") else "get")
             counts[eff] += 1
-            oname = "C12.frame.%s.%s.%s" % (modname.replace("pptx.", ""), cname, name)
+            key = (owner.__module__.replace("pptx.", ""), owner.__name__, name)
             functions["%s:%s.%s" % (owner.__module__, owner.__name__, name)] = 1
-            documented = _documented_creating(cls, name)
-            if eff == UNK:
-                unresolved.append("%s (%s)" % (oname, why))
+            a = agg.setdefault(key, {"effs": [], "documented": False, "owner": owner})
+            a["effs"].append((eff, why, cname))
+            a["documented"] = a["documented"] or _documented_creating(cls, name)
+    for (omod, oname_, name), a in sorted(agg.items()):
+        oname = "C12.frame.%s.%s.%s" % (omod, oname_, name)
+        resolved = [(e, w, cn) for e, w, cn in a["effs"] if e != UNK]
+        if not resolved:
+            unresolved.append("%s (%s)" % (oname, a["effs"][0][1]))
+            continue
+        eff, why, cname = max(resolved, key=lambda t: t[0])
+        documented = a["documented"]
+        rec = {"name": oname, "base": oname, "kind": "post", "backend": "effect-inference", "time": 0, "path": 0,
+               "claim": "effect(%s.%s) <= %s" % (oname_, name, "mutates (documented as creating content)" if documented else "adds-empty-container"),
+               "info": {"inferred": NAMES[eff], "why": why, "analysed_for": sorted({cn for _, _, cn in a["effs"]})[:12],
+                        "unresolved_for": sorted({cn for e, _, cn in a["effs"] if e == UNK})[:12]}}
+        if eff in (PURE, EMPTY) or documented:
+            rec["status"] = "discharged"
+        else:
+            rec["status"] = "refuted"
+            rec["model"] = {"accessor": "%s.%s" % (oname_, name), "inferred": NAMES[eff], "chain": why, "receiver_class": cname}
+            rr = _replay_accessor(oname_, name, tier, chain=why)
+            rec["replay"] = rr
+            if not rr.get("confirmed") and oname_.startswith("_") and " on 0 objects" in rr.get("detail", ""):
+                # an internal helper class (underscore name) that no public traversal reaches: its members are not read
+                # accessors of the object model; the public accessors delegating to it carry the obligation
+                notes.append("%s.%s: internal class never reached through the public API, no obligation of its own (%s)" % (oname_, name, why))
                 continue
-            rec = {"name": oname, "base": oname, "kind": "post", "backend": "effect-inference", "time": 0, "path": 0,
-                   "claim": "effect(%s.%s) <= %s" % (cname, name, "mutates (documented as creating content)" if documented else "adds-empty-container"),
-                   "info": {"inferred": NAMES[eff], "why": why}}
-            if eff in (PURE, EMPTY) or documented:
-                rec["status"] = "discharged"
-            else:
-                rec["status"] = "refuted"
-                rec["model"] = {"accessor": "%s.%s" % (cname, name), "inferred": NAMES[eff], "chain": why}
-                rr = _replay_accessor(cname, name, tier, chain=why)
-                rec["replay"] = rr
-                if not rr.get("confirmed") and cname.startswith("_") and " on 0 objects" in rr.get("detail", ""):
-                    # an internal helper class (underscore name) that no public traversal reaches: its members are not read
-                    # accessors of the object model; the public accessors delegating to it carry the obligation
-                    notes.append("%s.%s: internal class never reached through the public API, no obligation of its own (%s)" % (cname, name, why))
-                    continue
-            obls.append(rec)
+        obls.append(rec)
     notes.append("inferred effects: %d pure, %d adds-empty-container, %d mutates, %d unresolved (unresolved accessors are covered by C12.native_traversal only)"
                  % (counts[PURE], counts[EMPTY], counts[MUT], counts[UNK]))
     return {"contract": "C12.static_frames", "prop": "C12", "status": "ok", "obligations": obls, "paths": len(obls), "assumed": ["observed receiver-type table (corpus decks)", "lxml reader/writer table"],
